@@ -261,6 +261,36 @@ pub fn cmp_slice(imp: &[Float], r: &[Du], part: Part) -> Result<(), String> {
     Ok(())
 }
 
+/// As `cmp_slice`, for spaces whose valuations contain or produce infinities *without
+/// cancellation* (every sum has terms of one sign, so every evaluation order agrees): where the
+/// reference is +-inf the implementation must return exactly that infinity, where the reference
+/// is NaN (inf - inf, 0 * inf) nothing is compared, everything else follows the usual policy.
+pub fn cmp_slice_inf(imp: &[Float], r: &[Du], part: Part) -> Result<(), String> {
+    if imp.len() != r.len() {
+        return Err(format!("length {} vs reference {}", imp.len(), r.len()));
+    }
+    for (i, (a, d)) in imp.iter().zip(r).enumerate() {
+        let want = match part {
+            Part::Value => d.v,
+            Part::Tangent => d.d,
+        };
+        if want.is_nan() {
+            continue;
+        }
+        if want.is_infinite() || (IS_F32 && want.abs() > f32::MAX as f64) {
+            if IS_F32 && want.is_finite() && want.abs() < 2.0 * f32::MAX as f64 {
+                continue;
+            }
+            if (*a as f64) != want.signum() * f64::INFINITY {
+                return Err(format!("element {}: got {:?}, reference {:?} (the terms have one sign: every summation order overflows to that infinity)", i, *a as f64, want));
+            }
+            continue;
+        }
+        cmp_slice(std::slice::from_ref(a), std::slice::from_ref(d), part).map_err(|e| e.replacen("element 0", &format!("element {}", i), 1))?;
+    }
+    Ok(())
+}
+
 pub fn cmp_array(a: &Array, r: &T, part: Part) -> Result<(), String> {
     if a.dimensions() != &r.dims[..] {
         return Err(format!("dimensions {:?}, reference {:?}", a.dimensions(), r.dims));
